@@ -73,6 +73,6 @@ LEVEL_TEXT = ("Backend independence by construction of the yardstick: the Lean m
               "reference crypto contain NO notion of a backend; the theorems of C01-C14 are about that one model. Each of the four builds is tied to it by the correspondence suites, "
               "so two builds that both agree with the model agree with each other on everything the model observes. Theorems specific to this property (lean/Shm/Props/C20.lean): "
               "the model's answer is a function of the call history and the observed oracle values alone.")
-LEVEL_NOTE = ("Trusted: the correspondence runs (differential testing against the four builds); the known structural differences of the SQLite backend (C_CopyObject of token objects is "
+LEVEL_NOTE = ("Scope: each build is compared with the model in ONE process at a time; two processes sharing a SQLite token are not explored (seed C20-c is not caught; DESIGN 0.9 I). Trusted: the correspondence runs (differential testing against the four builds); the known structural differences of the SQLite backend (C_CopyObject of token objects is "
               "unimplemented: DBObject::nextAttributeType) and of the Botan backend (block output only at the final call; empty input to C_Decrypt) are recorded as known findings.")
 TECHNIQUE = "one Lean model + reference crypto as common yardstick; correspondence suites run against four builds ({files, SQLite} x {OpenSSL, Botan})"
